@@ -10,11 +10,13 @@ from ..model import AnalysisError
 
 
 class RunEval:
-    """plan:  x = call(fx);  lit = 7;  c = call(fc, x, lit, k=x);  output = c"""
+    """plan:  x = call(fx);  lit = 7;  c = call(fc, x, lit, k=x);  d = call(fd, x);  output = c"""
 
-    def __init__(self, m, rr, fail=None):
+    def __init__(self, m, rr, fail=None, user_frames=None):
         from .rewriterules import World
         self.m, self.rr = m, rr
+        self.user_frames = user_frames  # None: legacy anonymous chain; 0: the failing callable is C-implemented; n: n Python frames
+        self.raised = None
         w = self.w = World(m, rr)
         self.calls, self.applied, self.events = [], [], []
         self.x = w.call("x")
@@ -22,6 +24,9 @@ class RunEval:
         self.lit = w.interp.call_func(m.method("Plan", "lit", "EVAL"), None, [7], {}, bound_self=w.plan)
         self.c = w.interp.call_func(m.method("Plan", "_call", "EVAL"), None, ["FRAME", self._fn("c", fail), self.x, self.lit], {"k": self.x},
                                     bound_self=w.plan)
+        # a second, later consumer of x (x is consumed twice by c and once by d)
+        self.d = w.interp.call_func(m.method("Plan", "_call", "EVAL"), None, ["FRAME", self._fn("d", fail), self.x], {}, bound_self=w.plan)
+        w.names[id(self.d)] = "d"
         # two calls that run only for their effect: nobody consumes their results
         self.s1, self.s2 = w.call("s1"), w.call("s2")
         self.s1.attrs["fn"] = self._fn("s1", fail)
@@ -44,7 +49,12 @@ class RunEval:
         def fn(*a, **k):
             self.calls.append((tag, a, k))
             if fail == tag:
-                raise AbsRaise(Obj(None, {"__traceback__": _tb(6)}, name="ValueError"))
+                if self.user_frames is None:
+                    raise AbsRaise(Obj(None, {"__traceback__": _tb(6)}, name="ValueError"))
+                # the user's exception with the traceback entries of the user's own frames (a function created by exec in a bare
+                # namespace: its globals have no __name__); the evaluator adds the entries of the interpreted uberjob frames
+                self.raised = Obj(None, {"__traceback__": _user_tb(self.user_frames), "__tb_tracking__": True}, name="UserError")
+                raise AbsRaise(self.raised)
             return "V" + tag
         return Stub("fn_" + tag, fn)
 
@@ -62,7 +72,7 @@ class RunEval:
         tables = [v for v in vals if isinstance(v, dict)]
         procs = [v for v in vals if not isinstance(v, (dict, Obj)) or (isinstance(v, Obj) and "__call__" in v.attrs)]
         procs = [v for v in vals if type(v).__name__ in ("Closure",)] or procs
-        slots = [v for v in vals if isinstance(v, Obj) and v.cls is not None and v.cls.name == "Slot"]
+        slots = [v for v in vals if isinstance(v, Obj) and v.cls is not None and any(c_.name == "Slot" for c_ in v.cls.repo_mro())]
         if len(tables) != 1 or len(procs) != 1:
             raise AnalysisError("run preparation: cannot identify the bound-call table and the run callback in its result")
         return tables[0], (slots[0] if slots else None), procs[0]
@@ -120,6 +130,54 @@ def _tb(n):
     return tb
 
 
+def _user_tb(n):
+    tb = None
+    for i in reversed(range(n)):
+        frame = Obj(None, {"f_code": Obj(None, {"co_filename": "<string>", "co_name": f"user{i}"}, name="code"), "f_globals": {}, "f_locals": {},
+                           "f_back": None, "f_lineno": 1}, name=f"frame:user{i}")
+        tb = Obj(None, {"tb_next": tb, "tb_frame": frame, "tb_lineno": 1, "tb_lasti": 0}, name=f"tb:user{i}")
+    return tb
+
+
+def rule_failure_path(ctx, rr, rid_cause=None, rid_retained=None):
+    """The failure path of the run callback, evaluated with a traceback model: the user's function fails (a) in Python code two
+    frames deep, in a function whose globals have no `__name__` (created by exec), (b) inside a C-implemented callable (no frame
+    of its own), each with a custom retry decorator that returns the function unchanged.  The evaluator prepends one traceback
+    entry per interpreted uberjob frame the exception unwinds through, with that frame's live locals.
+      cause:    the callback ends by raising the node-error carrier whose __cause__ is the very exception object the call raised
+                (nothing on the failure path - frame trimming, notification, chaining - fails first);
+      retained: from the carrier (which the engine keeps until the run ends) the values of the failed call's arguments are not
+                reachable - not through its cause's traceback frames (BoundCall.run holds args/kwargs), not through the callback
+                frame's locals."""
+    m = ctx.model
+    f = rr.prep_run
+    for label, n_user in (("python-function", 2), ("c-callable", 0)):
+        try:
+            ev = RunEval(m, rr, fail="c", user_frames=n_user)
+            ev.w.interp.track_tb = True
+            table, out_slot, proc = ev.prepare()
+            ev.process(proc, ev.x)
+            ev.process(proc, ev.d)
+            err = ev.process(proc, ev.c)
+        except AbsRaise as e:
+            raise AnalysisError(f"abstract evaluation of the run callback raised {e.value!r}")
+        exc = ev.raised
+        if rid_cause:
+            ok = isinstance(err, Obj) and err.cls is not None and err.cls.name == "NodeError" and err.attrs.get("__cause__") is exc \
+                and exc is not None
+            got = (f"raised {err!r}" + (f" with cause {err.attrs.get('__cause__')!r}" if isinstance(err, Obj) else ""))
+            ctx.ob(rid_cause, f"{rr.runcb.short}/failure-path/{label}", ok, loc(rr.runcb),
+                   "evaluated: the callback raises the carrier chained from the very exception the call raised" if ok else
+                   f"evaluated with a call failing in a {label.replace('-', ' ')} (exec-created function, custom retry): the callback {got} - the "
+                   f"exception reported for the call is not the one it raised")
+        if rid_retained and isinstance(err, Obj):
+            where = find_token([("the carrier kept by the engine", err)], "Vx")
+            ctx.ob(rid_retained, f"{rr.runcb.short}/failure-retains-arguments/{label}", where is None, loc(rr.runcb),
+                   "evaluated: the argument values of the failed call are unreachable from the error the engine keeps" if where is None else
+                   f"evaluated with a call failing in a {label.replace('-', ' ')}: the argument value of the failed call is still referenced through "
+                   f"{where}: inputs of a failed call stay alive while the run continues")
+
+
 def rule_run_callback(ctx, rr, rid_binding=None, rid_slots=None, rid_release=None, rid_bracket=None):
     """Evaluate preparation + callback on the symbolic plan, on the success path and with a failing call."""
     m = ctx.model
@@ -127,23 +185,24 @@ def rule_run_callback(ctx, rr, rid_binding=None, rid_slots=None, rid_release=Non
     try:
         ev = RunEval(m, rr)
         table, out_slot, proc = ev.prepare()
-        for n in (ev.x, ev.lit, ev.c, ev.s1):
+        for n in (ev.x, ev.lit, ev.c, ev.d, ev.s1):
             ev.process(proc, n)
         ev2 = RunEval(m, rr)
         table2, out_slot2, proc2 = ev2.prepare()
         evf = RunEval(m, rr, fail="c")
         tablef, out_slotf, procf = evf.prepare()
         evf.process(procf, evf.x)
+        evf.process(procf, evf.d)
         err = evf.process(procf, evf.c)
     except AbsRaise as e:
         raise AnalysisError(f"abstract evaluation of the run callback raised {e.value!r}")
     if rid_binding:
-        want = [("x", (), {}), ("c", ("Vx", 7), {"k": "Vx"}), ("s1", (), {})]
+        want = [("x", (), {}), ("c", ("Vx", 7), {"k": "Vx"}), ("d", ("Vx",), {}), ("s1", (), {})]
         ok = ev.calls == want
         ctx.ob(rid_binding, f"{rr.bound_run.short}/binding", ok, loc(rr.bound_run),
-               "evaluated on x=fx(); c=fc(x, 7, k=x): every function receives the values of its argument nodes in order and by name" if ok else
-               f"evaluated on x=fx(); c=fc(x, 7, k=x): the functions were invoked as {ev.calls!r}, expected {want!r}")
-        ok = len(ev.applied) == 3 and all(isinstance(a, Stub) and a.name.startswith("fn_") for a in ev.applied)
+               "evaluated on x=fx(); c=fc(x, 7, k=x); d=fd(x): every function receives the values of its argument nodes in order and by name" if ok else
+               f"evaluated on x=fx(); c=fc(x, 7, k=x); d=fd(x): the functions were invoked as {ev.calls!r}, expected {want!r}")
+        ok = len(ev.applied) == 4 and all(isinstance(a, Stub) and a.name.startswith("fn_") for a in ev.applied)
         ctx.ob(rid_binding, f"{rr.bound_run.short}/through-retry", ok, loc(rr.bound_run),
                "each user function is invoked through retry(fn)" if ok else
                f"the user functions are not (all) wrapped by the retry decorator (decorated: {[getattr(a, 'name', a) for a in ev.applied]})")
@@ -153,11 +212,11 @@ def rule_run_callback(ctx, rr, rid_binding=None, rid_slots=None, rid_release=Non
                f"the output slot holds {out_slot.attrs.get('value') if out_slot is not None else None!r} after the output call returned 'Vc'")
     if rid_slots:
         keys = set(id(k) for k in table)
-        ok = keys == {id(ev.x), id(ev.c), id(ev.s1), id(ev.s2)}
+        ok = keys == {id(ev.x), id(ev.c), id(ev.d), id(ev.s1), id(ev.s2)}
         ctx.ob(rid_slots, f"{f.short}/bound-calls-for-calls-only", ok, loc(f), "bound calls exist only for exact Call nodes" if ok else
                "a non-Call node can get a bound call (its .result.value store would overwrite a Literal)")
         ok = ev.lit.attrs.get("value") == 7 and out_slot is not None and out_slot2 is not None and out_slot is not out_slot2 \
-            and out_slot2.attrs.get("value") is None and out_slot is not ev.c and out_slot.cls is not None and out_slot.cls.name == "Slot"
+            and out_slot2.attrs.get("value") is None and out_slot is not ev.c and out_slot.cls is not None and any(c_.name == "Slot" for c_ in out_slot.cls.repo_mro())
         ctx.ob(rid_slots, f"{f.short}/one-fresh-slot-per-node", ok, loc(f),
                "slot table: node itself for exact Literal nodes, a fresh Slot(None) for every other node (a second preparation of "
                "the same plan shares no slot with the first; the literal keeps its value)" if ok else
@@ -167,7 +226,7 @@ def rule_run_callback(ctx, rr, rid_binding=None, rid_slots=None, rid_release=Non
         def cell(tb, node):
             v = [v for k, v in tb.items() if k is node]
             return v[0] if v else None
-        ok = all(isinstance(cell(table, n), Obj) and cell(table, n).attrs.get("value") is None for n in (ev.x, ev.c, ev.s1))
+        ok = all(isinstance(cell(table, n), Obj) and cell(table, n).attrs.get("value") is None for n in (ev.x, ev.c, ev.d, ev.s1))
         ctx.ob(rid_release, f"{f.short}/released-after-call", ok, loc(f),
                "after a call returned its bound call (argument slots) has been dropped from the table" if ok else
                "the bound call of a finished call stays in the table: its inputs stay reachable until the run ends")
@@ -176,7 +235,7 @@ def rule_run_callback(ctx, rr, rid_binding=None, rid_slots=None, rid_release=Non
                "after a call raised its bound call has been dropped as well" if okf else
                "the bound call of a failed call stays in the table: its inputs stay reachable while the run continues")
     if rid_release:
-        # abstract-heap reachability: once c (the only consumer of x) has finished, the value of x must not be reachable from
+        # abstract-heap reachability: once c and d (the consumers of x) have finished, the value of x must not be reachable from
         # anything the preparation handed out - whatever table, closure or record would still hold it
         for label, e_, tb_, os_, pr_ in (("after-last-consumer", ev, table, out_slot, proc), ("after-failed-consumer", evf, tablef, out_slotf, procf)):
             roots = [("bound-call table", tb_), ("output slot", os_), ("run callback", pr_), ("plan", e_.w.plan)]
@@ -188,18 +247,18 @@ def rule_run_callback(ctx, rr, rid_binding=None, rid_slots=None, rid_release=Non
                     where += " (result of a finished call that has no consumer)"
             ctx.ob(rid_release, f"{f.short}/unreachable-{label}", where is None, loc(f),
                    "evaluated: the result of x is unreachable from the bound-call table, the output slot, the callback and the plan once its "
-                   "only consumer has " + ("finished" if label == "after-last-consumer" else "failed") if where is None else
-                   f"evaluated: after its only consumer {'finished' if label == 'after-last-consumer' else 'failed'} the result of x is still "
+                   "last consumer has " + ("finished" if label == "after-last-consumer" else "failed") if where is None else
+                   f"evaluated: after its last consumer {'finished' if label == 'after-last-consumer' else 'failed'} the result of x is still "
                    f"referenced through {where}: intermediate results stay alive for the whole run")
     if rid_bracket:
         def well_formed(events, kinds):
             return [e[0] for e in events] == kinds and all(e[1] == "run" for e in events) and \
                 all(events[i][2] == events[i + 1][2] for i in range(0, len(events) - 1, 2))
-        ok = well_formed(ev.events, ["increment_running", "increment_completed"] * 3)
+        ok = well_formed(ev.events, ["increment_running", "increment_completed"] * 4)
         ctx.ob(rid_bracket, f"{f.short}/bracket-on-success", ok, loc(f),
                "evaluated: each call reports running then completed with the same section and scope; a literal reports nothing" if ok else
                f"evaluated: the notifications for x, literal, c were {ev.events!r}")
-        okf = well_formed(evf.events, ["increment_running", "increment_completed", "increment_running", "increment_failed"]) and err is not None
+        okf = well_formed(evf.events, ["increment_running", "increment_completed"] * 2 + ["increment_running", "increment_failed"]) and err is not None
         ctx.ob(rid_bracket, f"{f.short}/bracket-on-failure", okf, loc(f),
                "evaluated: a failing call reports running then failed (once), and the failure propagates" if okf else
                f"evaluated with a failing call: notifications {evf.events!r}, raised {err!r}")
